@@ -6,7 +6,7 @@ from . import maplib as M
 PROPERTY = "C06"
 DRIVER = "TraitsVerif/Driver/Map.lean"
 PROPS_MODULES = ["TraitsVerif.Props.C06"]
-TRANSLATORS = ["mutators", "dictevent", "pylmap", "pylobj", "ctorcopy"]
+TRANSLATORS = ["mutators", "dictevent", "pylmap", "pylobj", "ctorcopy", "ctorprogdict"]
 RULE = ("exhaustive single operations (every mutator x key/value arguments from {1,'1',2,'2'} x pair lists of "
         "length 0..2 (thorough: 0..3) as list / mapping x 4 (thorough: 24) validator pairs) on every ordered dict "
         "with <= 2 (thorough: <= 3) keys from {1,'1',2}; the same stream against the builtin dict (validates the "
